@@ -14,6 +14,7 @@ CONSTANTS
   MaxTxs = 1
   AllowEvidence = TRUE
   AllowAbsent = FALSE
+  MaxChecks = 0
   AllowRestart = FALSE
   AllowNoProposer = FALSE
   KnownD8 = TRUE
